@@ -429,7 +429,7 @@ def run_pipes(jobs, timeout=3000):
     procs = []
     for bvh_cmd, model_cmd in jobs:
         ph = subprocess.Popen(bvh_cmd, stdout=subprocess.PIPE, stderr=subprocess.PIPE)
-        pm = subprocess.Popen(model_cmd, stdin=ph.stdout, stdout=subprocess.PIPE, stderr=subprocess.PIPE, text=True, preexec_fn=_big_stack)
+        pm = subprocess.Popen(model_cmd, stdin=ph.stdout, stdout=subprocess.PIPE, stderr=subprocess.PIPE, text=True, preexec_fn=_big_stack, env=dict(os.environ, OCAMLRUNPARAM="s=8M"))
         ph.stdout.close(); procs.append((ph, pm))
     res = []
     for ph, pm in procs:
